@@ -114,44 +114,71 @@ func (c *Ctx) rulesC13(a *coreAnchors, la *LockAnalysis) {
 			name string
 			ins  ssa.Instruction
 		}
-		for _, s := range c.sitesIn(dd, pm+":Subscriptions.dispose") {
-			sites = append(sites, struct {
-				name string
-				ins  ssa.Instruction
-			}{"subs.dispose()", s})
+		hosted := c.hostedFns(dd)
+		isHosted := map[*ssa.Function]bool{}
+		for _, h := range hosted {
+			isHosted[h] = true
 		}
-		for _, b := range dd.Blocks {
-			for _, ins := range b.Instrs {
-				call, ok := ins.(*ssa.Call)
-				if !ok {
-					continue
+		// the list of dispose handlers: the field, a copy of it, or what a hosted helper returns from it
+		fromDH := func(v ssa.Value) bool {
+			return derives(v, func(x ssa.Value) bool {
+				if loadOfField(x) == fDH {
+					return true
 				}
-				if bi, ok := call.Call.Value.(*ssa.Builtin); ok && bi.Name() == "close" && loadOfField(call.Call.Args[0]) == fErrInt {
-					sites = append(sites, struct {
-						name string
-						ins  ssa.Instruction
-					}{"close(errInternal)", ins})
+				if call, ok := x.(*ssa.Call); ok {
+					if g := call.Call.StaticCallee(); g != nil && isHosted[g] {
+						for _, r := range returnsOf(g) {
+							for _, rv := range retVals(r) {
+								if derives(rv, func(y ssa.Value) bool { return loadOfField(y) == fDH }) {
+									return true
+								}
+							}
+						}
+					}
 				}
-				if calleeName(&call.Call) == "closeSafe" && len(call.Call.Args) == 1 && loadOfField(call.Call.Args[0]) == fWD {
-					sites = append(sites, struct {
-						name string
-						ins  ssa.Instruction
-					}{"close(whenDisposed)", ins})
-				}
-				if !call.Call.IsInvoke() && call.Call.StaticCallee() == nil {
-					if loadOfField(call.Call.Value) == fCancel {
+				return false
+			})
+		}
+		for _, hf := range hosted {
+			for _, s := range c.sitesIn(hf, pm+":Subscriptions.dispose") {
+				sites = append(sites, struct {
+					name string
+					ins  ssa.Instruction
+				}{"subs.dispose()", s})
+			}
+			for _, b := range hf.Blocks {
+				for _, ins := range b.Instrs {
+					call, ok := ins.(*ssa.Call)
+					if !ok {
+						continue
+					}
+					if bi, ok := call.Call.Value.(*ssa.Builtin); ok && bi.Name() == "close" && loadOfField(call.Call.Args[0]) == fErrInt {
 						sites = append(sites, struct {
 							name string
 							ins  ssa.Instruction
-						}{"m.cancel()", ins})
+						}{"close(errInternal)", ins})
 					}
-					// element of disposeHandlers
-					if u, ok := call.Call.Value.(*ssa.UnOp); ok && u.Op == token.MUL {
-						if ia, ok := u.X.(*ssa.IndexAddr); ok && loadOfField(ia.X) == fDH {
+					if calleeName(&call.Call) == "closeSafe" && len(call.Call.Args) == 1 && loadOfField(call.Call.Args[0]) == fWD {
+						sites = append(sites, struct {
+							name string
+							ins  ssa.Instruction
+						}{"close(whenDisposed)", ins})
+					}
+					if !call.Call.IsInvoke() && call.Call.StaticCallee() == nil {
+						if loadOfField(call.Call.Value) == fCancel {
 							sites = append(sites, struct {
 								name string
 								ins  ssa.Instruction
-							}{"dispose handler call", ins})
+							}{"m.cancel()", ins})
+						}
+						// element of disposeHandlers
+						if u, ok := call.Call.Value.(*ssa.UnOp); ok && u.Op == token.MUL {
+							if ia, ok := u.X.(*ssa.IndexAddr); ok && fromDH(ia.X) {
+								sites = append(sites, struct {
+									name string
+									ins  ssa.Instruction
+								}{"dispose handler call", ins})
+							}
 						}
 					}
 				}
@@ -160,14 +187,14 @@ func (c *Ctx) rulesC13(a *coreAnchors, la *LockAnalysis) {
 		seen := map[string]int{}
 		for _, s := range sites {
 			seen[s.name]++
-			c.requireGuards("C13.once", "doDispose "+s.name+nth(seen[s.name]-1), s.ins, once)
+			c.requireGuardsHosted("C13.once", "doDispose "+s.name+nth(seen[s.name]-1), s.ins, dd, once)
 		}
 		for _, want := range []string{"subs.dispose()", "close(errInternal)", "m.cancel()", "close(whenDisposed)", "dispose handler call"} {
 			c.check(seen[want] >= 1, "C13.once", "doDispose performs "+want, dd.Pos(), "release action not found in doDispose")
 		}
 		// dispose handlers invoked nowhere else
 		for _, f := range c.Funcs {
-			if f == dd || topFunc(f).Pkg == nil || relPkg(topFunc(f).Pkg.Pkg.Path()) != pm {
+			if isHosted[topFunc(f)] || topFunc(f).Pkg == nil || relPkg(topFunc(f).Pkg.Pkg.Path()) != pm {
 				continue
 			}
 			for _, r := range readsOfFieldIn(f, fDH) {
@@ -363,8 +390,13 @@ func (c *Ctx) lockOrderRule(la *LockAnalysis, rule string, sel func(id string) b
 		names := func(m map[string]bool) string {
 			var xs []string
 			for x := range m {
+				// a private single-caller helper is named by the function it was split from
+				if f := c.fnOpt(x); f != nil {
+					x = funcKey(c.hostRootOf(f))
+				}
 				xs = append(xs, x[strings.Index(x, ":")+1:])
 			}
+			xs = dedupStrings(xs)
 			sort.Strings(xs)
 			return strings.Join(xs, ",")
 		}
@@ -527,7 +559,9 @@ func (c *Ctx) rulesC13send(la *LockAnalysis) {
 			}
 		}
 	}
-	visit(dd)
+	for _, hf := range c.hostedFns(dd) {
+		visit(hf)
+	}
 	if len(closes) < 1 {
 		c.undecided("C13.send: doDispose closes no Machine channel with close()")
 		return
@@ -615,5 +649,40 @@ func lockKeysOf(m map[string]bool) []string {
 		out = append(out, shortLock(k))
 	}
 	sort.Strings(out)
+	return out
+}
+
+
+// hostRootOf follows the chain of unique callers of an unexported top-level
+// function (not started with go) up to the function it was split from.
+func (c *Ctx) hostRootOf(f *ssa.Function) *ssa.Function {
+	f = topFunc(f)
+	for d := 0; d < 4; d++ {
+		if f.Object() == nil || f.Object().Exported() {
+			return f
+		}
+		sites, vals := c.allCallersOf(f)
+		if len(sites) != 1 || len(vals) != 0 {
+			return f
+		}
+		if _, isGo := sites[0].Instr.(*ssa.Go); isGo {
+			return f
+		}
+		if _, isDefer := sites[0].Instr.(*ssa.Defer); isDefer {
+			return f
+		}
+		f = topFunc(sites[0].Fn)
+	}
+	return f
+}
+
+func dedupStrings(xs []string) []string {
+	sort.Strings(xs)
+	var out []string
+	for i, x := range xs {
+		if i == 0 || x != xs[i-1] {
+			out = append(out, x)
+		}
+	}
 	return out
 }
